@@ -35,6 +35,28 @@ CLAIMS = {
         note="Trusted: specification's non-malleable algorithm is sufficient; malleability typing decided by C05.",
         tech=STATIC + "finite decision tables from THIR + symbolic selector binding",
         engine="tablex"),
+    "C04": dict(
+        cat="other",
+        text="Decides structural necessary conditions, not round-trips on byte strings: the script template emitted by "
+             "Terminal::encode for each of the 30 fragments (extracted symbolically) equals the specification's; "
+             "Miniscript::script_size is the length homomorphism of that template (script_num_size, Ctx::pk_len tables); "
+             "the lexer's table over all 256 opcodes: totality over the encoder's alphabet, fused-VERIFY splitting, "
+             "non-minimal VERIFY rejection, push classes, minimal non-negative numbers.",
+        note="Trusted: spec/script.py (opcode bytes, templates); models of bitcoin::script::Builder::push_* (token "
+             "constructors) and read_scriptint; rustc THIR. Decoder state machine only partially covered.",
+        tech=STATIC + "symbolic template extraction + linear-form comparison of size terms + exhaustive lexer decision table",
+        engine="symx+tablex"),
+    "C19": dict(
+        cat="other",
+        text="Derived impls are structural by construction (census). For every hand-written Eq/Ord/Hash/Clone impl "
+             "(Terminal, Miniscript, Tr, policy Ord) the coverage clause is decided: each payload field (keys, hashes, "
+             "every bit of a lock time, threshold k, arity n) of every variant and every pair of variants is "
+             "distinguished by ==, cmp (antisymmetric, Equal only on identical values) and hash, and clone rebuilds "
+             "the same node; decided by evaluating the impl bodies on one-level model values with opaque payloads.",
+        note="Trusted: model of the generic tree iterators in iter/tree.rs; key/hash types' own Eq/Ord/Hash; rustc THIR. "
+             "Deep trees follow from per-node coverage + arity via the generic pre-order traversal (not re-proved).",
+        tech=STATIC + "derive census + payload-coverage decision table extracted from impl bodies (THIR evaluation on model values)",
+        engine="tablex"),
     "C05": dict(
         cat="proof",
         text="Exhaustive decision over the finite domain: every typing rule's exact table (from its typed syntax tree) "
